@@ -128,6 +128,14 @@ class SchedWorld(JobWorld, BuildWorld):
                 if rc != 0:
                     c['forced_status'] = 1           # sh -e: the script stops at the failing command
                     return
+            elif op[0] in ('always', 'ifcreate'):
+                # the real always::run / ifcreate::run of the bin crate
+                argv = [b'redo-always'] if op[0] == 'always' else [b'redo-ifcreate'] + list(op[1])
+                rc = self.run_cmd(c, bytes(tname), op[0] + '::run', argv)
+                self.ev('redo-' + op[0], target=bytes(tname).decode(), rc=rc)
+                if rc != 0:
+                    c['forced_status'] = 1
+                    return
             elif op[0] == 'stamp':
                 d = op[1]
                 if isinstance(d, dict):
@@ -224,6 +232,21 @@ class SchedWorld(JobWorld, BuildWorld):
 
     def child_wait(self, eng, child, sp):
         return ok(Opaque('ExitStatus', child.data))
+
+    def run_cmd(self, c, tname, entry, argv):
+        eng = self.eng
+        saved = (self._cmd_argv, self.proc, self.__dict__.get('cmd_target'))
+        self._cmd_argv = argv
+        self.cmd_target = tname
+        self.proc = c['pid']
+        try:
+            try:
+                r = eng.call(entry, [], None, None)
+            except ProcessExit:
+                return 1
+            return 0 if (isinstance(r, Enum) and r.var == 'Ok') else 1
+        finally:
+            self._cmd_argv, self.proc, self.cmd_target = saved
 
     def run_stamp(self, c, tname, digest):
         """`redo-stamp` in a script: the real stamp::run; the digest of its input is the script's (an input of the exploration)"""
